@@ -56,15 +56,26 @@ def main(argv):
         return ctx.finish()
     except vcommon.MachineryError as exc:
         print(f"MACHINERY-ERROR {pid}: {exc}")
-        import shutil
-        shutil.rmtree(ctx.scratch, ignore_errors=True)
-        return 2
+        return _after_failure(ctx, replay)
     except BaseException:
         print(f"MACHINERY-ERROR {pid}: unexpected exception in harness")
         traceback.print_exc()
-        import shutil
-        shutil.rmtree(ctx.scratch, ignore_errors=True)
-        return 2
+        return _after_failure(ctx, replay)
+
+
+def _after_failure(ctx, replay):
+    """a machinery failure AFTER violations were established must not hide
+    them: they are reported (exit 1); otherwise exit 2"""
+    import shutil
+    if not replay and ctx.candidates:
+        try:
+            rc = ctx.finish()
+            if rc == 1:
+                return 1
+        except BaseException:
+            traceback.print_exc()
+    shutil.rmtree(ctx.scratch, ignore_errors=True)
+    return 2
 
 
 def _descendants(root):
